@@ -81,6 +81,14 @@ def _chart_ok(root):
         for r in refs:
             if r not in ids:
                 return False
+    # the generators only refer to declared variables (an undeclared one is nil in Lua, an error elsewhere)
+    declared = set(e.get("id") for e in root.iter() if e.tag.replace(ns, "") == "data")
+    for e in root.iter():
+        for a in ("expr", "cond", "location", "namelist", "eventexpr"):
+            if e.get(a) and e.tag.replace(ns, "") != "data":
+                for name in re.findall(r"\bv\d+\b", e.get(a)):
+                    if name not in declared:
+                        return False
     return True
 
 
